@@ -916,12 +916,13 @@ func genModText(src *choice.Src, work, bare bool) (string, *mModel) {
 			suffix := fmt.Sprintf(" // S%d", gl.id)
 			if gl.indirect {
 				// the marker is recognised with any spacing after the slashes
-				suffix = fmt.Sprintf(" %s S%d", []string{"// indirect;", "// indirect;", "//indirect;", "//  indirect;", "//\tindirect;"}[gl.spacing%5], gl.id)
+				// ... and the text after the marker may itself begin like a marker
+				suffix = fmt.Sprintf(" %s S%d", []string{"// indirect;", "// indirect;", "//indirect;", "//  indirect;", "//\tindirect;", "// indirect; indirect;", "// indirect; indirect; indirect;"}[gl.spacing%7], gl.id)
 			}
 			if noComments {
 				suffix = ""
 				if gl.indirect {
-					suffix = []string{" // indirect", " //indirect", " //  indirect"}[gl.spacing%3]
+					suffix = []string{" // indirect", " //indirect", " //  indirect", " // indirect; indirect"}[gl.spacing%4]
 				} else if gl.spacing%7 == 6 {
 					suffix = []string{" //", " //   ", " //\t"}[gl.spacing/7%3] // an empty end-of-line comment
 				}
